@@ -6,6 +6,7 @@ import os
 
 from ..harness import Shard, rng_for, h64, printable, guard, exc_name
 from ..ref import schema as RS, binary as RB, conform as RC, container as RK
+from ..mon.streams import FlushedView
 
 PID = "C07"
 LEVEL = "exploration"
@@ -214,7 +215,7 @@ def run_history(sh, fa, rng, ops):
 
     Writer = faw.Writer
     ids = Ids()
-    S = io.BytesIO()
+    S = FlushedView()  # what a reader on another handle sees is the content as of the last flush()
     W = None
     header0 = None
     durable = []
@@ -231,8 +232,12 @@ def run_history(sh, fa, rng, ops):
     def expected_of(rec):
         return RB.to_py(node, RC.from_datum(node, rec))
 
-    def verify(step):
-        data = S.getvalue()
+    def verify(step, flushed=True):
+        data = S.flushed if flushed else S.getvalue()
+        if flushed and data != S.getvalue():
+            sh.violation("flush-did-not-reach-the-stream", "step %d (%s): after Writer.flush() %d of %d bytes have been flushed to the underlying stream"
+                         % (step, ops[step][0], len(data), len(S.getvalue())), info)
+            return False
         try:
             cont = RK.parse(data)
             trees = RK.records(cont, node)
@@ -346,8 +351,8 @@ def run_history(sh, fa, rng, ops):
             sh.count("write_block_mode_" + mode)
             since_dump_failed = False
             sh.count("write_blocks")
-            # write_block does not flush the stream object; BytesIO needs none
-            if not verify(step):
+            # write_block does not flush the stream object: the stream's own content is judged
+            if not verify(step, False):
                 return
         elif kind == "abandon" or kind in ("reopen", "writer_fn"):
             arg = op[1] if len(op) > 1 else {}
